@@ -371,7 +371,8 @@ def r10_spellings_normalise_identically(ctx):
             self.name = name
 
         def __getitem__(self, item):
-            return (self.name, tuple(item) if isinstance(item, (tuple, list)) else (item,))
+            # (the package's Union compares its members as a set)
+            return (self.name, frozenset(item) if isinstance(item, (tuple, list)) else frozenset((item,)))
 
     class DependentStandIn:
         pass
@@ -418,9 +419,12 @@ def r10_spellings_normalise_identically(ctx):
         "anything": [("typing.Any", typing.Any), ("no annotation", inspect._empty), ("'Any'", "Any"), ("object", object)],
         "any class": [("type", type), ("'type'", "type"), ("type[object]", type[object])],
         "a plain class": [("int", int), ("'int'", "int"), ("Annotated[int, ..]", typing.Annotated[int, "m"])],
+        "int or None": [("typing.Optional[int]", typing.Optional[int]), ("typing.Union[int, None]", typing.Union[int, None]), ("(int, None)", (int, None)), ("(None, int)", (None, int)), ("'typing.Optional[int]'", "typing.Optional[int]")],
+        "None": [("type(None)", type(None)), ("None", None), ("'None'", "None")],
     }
     if hasattr(types, "UnionType"):
         groups["int | str"] += [("int | str", int | str), ("'int | str'", "int | str"), ("Annotated[int | str, ..]", typing.Annotated[int | str, "m"])]
+        groups["int or None"] += [("int | None", int | None), ("'None | int'", "None | int")]
     for what, spellings in groups.items():
         results = [(label, norm(t)) for label, t in spellings]
         ref = results[0][1]
